@@ -162,8 +162,27 @@ def runInclCase (cfgF pathF lineF srcF envF mode : String) : String :=
        | _ => "panic")
   | _, _ => "unmodelled parse"
 
+/-- for every `Write` call of the fault-free run, in order: the error the render ends with when that call fails
+    (`none`: it does not end with an error) -/
+def Prog.faultErrs {α} : Prog α → List (Option RawErr)
+  | .call _ k => (match k (.failed 0) with | .fail e => some e | _ => none) :: faultErrs (k .ok)
+  | _ => []
+
+/-- how many fault indices the `faults` stream explores at each end of a long run (`faultCallCap / 2`) -/
+def faultCapHalf : Nat := 600
+
+/-- the location of the error of every explored single-fault run: `<line>p` (the error names the template's
+    path) or `<line>-` (it names no path), `!` = not a located error; comma-separated, `-` = no call -/
+def showFaultLocs (path : Bytes) (es : List (Option RawErr)) : String :=
+  let one : Option RawErr → String
+    | some (.located e) => toString e.line ++ (if e.pathSet && !path.isEmpty then "p" else "-")
+    | _ => "!"
+  let es' := if es.length > 2 * faultCapHalf then es.take faultCapHalf ++ es.drop (es.length - faultCapHalf) else es
+  if es'.isEmpty then "-" else ",".intercalate (es'.map one)
+
 /-- `writes <cfg> <pathhex> <line> <srchex> <envenc>`: the underlying `Write` calls of a fault-free
-    `FRender` (in order, empty calls included) and how the render ends -/
+    `FRender` (in order, empty calls included), how the render ends, and where the error of each single-fault
+    run is located -/
 def runWritesCase (cfgF pathF lineF srcF envF : String) : String :=
   match parseEngineCfg cfgF, GoVal.parse envF with
   | some (strict, delims, files), some ev =>
@@ -177,7 +196,7 @@ def runWritesCase (cfgF pathF lineF srcF envF : String) : String :=
         | .unmodelled w => "unmodelled " ++ w
         | .ok root =>
           let p := frender stdPrims stdOut cfg (fsOfList files) 8 root env
-          let calls := showCalls p.calls
+          let calls := showCalls p.calls ++ " " ++ showFaultLocs path p.faultErrs
           (match p.runPure with
            | (_, .ok _) => "ok " ++ calls
            | (_, .err (.located e)) => (RunResult.err e).show path ++ " " ++ calls
